@@ -7,8 +7,8 @@ CONSTANTS
   Variants = {"asis", "fixed"}
   Cuts = FALSE
   Kinds = {"T2"}
-  Sizes = {3}
-  Pads = {0, 2}
+  Sizes = {1, 3}
+  Pads = {0, 1, 2}
   Props = {0}
   CtlFroms = {4, 6}
   MemSizes = {2}
